@@ -46,6 +46,15 @@ def check(ctx):
             tick_for, pop_node = f, n
             break
     if tick_for is None:
+        # the loop that sends tasker.desire exists but does not pop its entries from ready one at a time
+        alt = [n for n in ast.walk(fn) if isinstance(n, ast.For) and any(
+            isinstance(x, ast.Attribute) and x.attr == "desire" for x in ast.walk(n))]
+        if alt:
+            ctx.bad("T2-linear", alt[0], "for %s in %s: ... send(tasker.desire)" % (src(alt[0].target), src(alt[0].iter)),
+                    "the tick loop does not take its entries from the ready deque with popleft(): taskers not yet run in "
+                    "this tick are held outside `ready` (so they are not scheduled if the tick ends early) and the "
+                    "pop-once / push-once accounting of the tick cannot be established")
+            return
         raise AnchorError("Skedder.run: tick loop (for ... ready.popleft() ... send(tasker.desire)) not found")
     hdr = [n for n in cfg.nodes if n.kind == "for" and n.ast is tick_for]
     V.need(hdr, "tick loop header")
